@@ -11,7 +11,9 @@ Model:   CodecTrace.tla: every call must return (a `call` without a `ret` - sani
 What TLA+ does not decide: out-of-bounds access, UB and leaks are OBSERVED by ASan/UBSan/LSan under which the traces are recorded (clang,
          exact-size heap buffers); the spec only says such a trace is not a behaviour.
 """
-from .. import codec, desmachine
+import concurrent.futures
+
+from .. import codec, desmachine, lemmas
 
 PROP = "C04"
 OWN = {"cross.rc": PROP, "cross.value": PROP, "cross.consumed": PROP}
@@ -27,6 +29,8 @@ def specs_for(ctx):
 
 
 def run(ctx):
+    # the memory argument of the cursor machines for buffers of ANY size (Apalache inductive invariants, specs/CursorInd*.tla), in the background
+    lemma_job = concurrent.futures.ThreadPoolExecutor(max_workers=1).submit(lemmas.run_cursor, ctx)
     types = codec.universe(ctx, ctx.pick(40, 400), ctx.pick(1, 2))
     if ctx.quick:
         types = types[::2] + [t for t in types[1::2] if any(x in codec.dsdl.features(t) for x in ("varr", "farr", "farr-of-bool", "varr-of-bool")) and len(t["fields"]) <= 3][:40]
@@ -92,6 +96,10 @@ def run(ctx):
     ctx.cov["rule"] = ("ASan+UBSan+LSan builds (clang -O1) of C {any, little} and C++ {14 built-in variant, 17 std::variant, 17-pmr}; serialization of valid, "
                        "out-of-range and invalid objects into exact-size heap buffers of size need/need+1/need-1/0/need/2; every byte string decoded into a "
                        "fresh, a poisoned and a reused object; distinct = (event, target, type shape, construction, prior, stimulus hash)")
+    ninductive = lemma_job.result()
+    if ninductive:
+        ctx.cov["unbounded_lemmas"] = ("CursorInd / CursorIndSer: %d Apalache runs over unbounded integers (init, inductive step, refuted control each): every byte touched and "
+                                       "every pointer handed to a nested decoder lies inside the supplied buffer for buffers of any size" % ninductive)
     ctx.assumptions += ["memory safety is observed by the sanitizer runtimes, not decided by the model", "clang 14 sanitizers", "poisoned C++ objects are objects that "
                         "first decoded a junk buffer (non-trivial types cannot be memset)"]
 
